@@ -97,11 +97,11 @@ inline RunCtx& ctx() { static RunCtx c; return c; }
 
 inline std::string cfg_json(const vsim::Config& c) {
   return "{\"seed\":" + std::to_string(c.seed) + ",\"strategy\":" + std::to_string(c.strategy) + ",\"starve_thread\":" + std::to_string(c.starve_thread) +
-         ",\"sticky_num\":" + std::to_string(c.sticky_num) + ",\"sig_linux_bias\":" + std::to_string(c.sig_linux_bias) + ",\"max_steps\":" + std::to_string(c.max_steps) + ",\"pid_recycle\":" + std::to_string(c.pid_recycle) + ",\"alloc_rate\":" + std::to_string(c.alloc_rate) + ",\"alloc_phase\":" + std::to_string(c.alloc_phase) + "}";
+         ",\"sticky_num\":" + std::to_string(c.sticky_num) + ",\"sig_linux_bias\":" + std::to_string(c.sig_linux_bias) + ",\"max_steps\":" + std::to_string(c.max_steps) + ",\"pid_recycle\":" + std::to_string(c.pid_recycle) + ",\"alloc_rate\":" + std::to_string(c.alloc_rate) + ",\"alloc_phase\":" + std::to_string(c.alloc_phase) + ",\"sigchld_ignored\":" + std::to_string(c.sigchld_ignored) + "}";
 }
 inline void cfg_from(const J& j, vsim::Config& c) {
   c.seed = uint64_t(j.geti("seed", 1)); c.strategy = int(j.geti("strategy")); c.starve_thread = int(j.geti("starve_thread", -1));
-  c.sticky_num = int(j.geti("sticky_num", 3)); c.sig_linux_bias = int(j.geti("sig_linux_bias")); c.max_steps = long(j.geti("max_steps", 200000)); c.pid_recycle = int(j.geti("pid_recycle")); c.alloc_rate = int(j.geti("alloc_rate")); c.alloc_phase = int(j.geti("alloc_phase"));
+  c.sticky_num = int(j.geti("sticky_num", 3)); c.sig_linux_bias = int(j.geti("sig_linux_bias")); c.max_steps = long(j.geti("max_steps", 200000)); c.pid_recycle = int(j.geti("pid_recycle")); c.alloc_rate = int(j.geti("alloc_rate")); c.alloc_phase = int(j.geti("alloc_phase")); c.sigchld_ignored = int(j.geti("sigchld_ignored"));
 }
 
 // result lines go to a private duplicate of the original stdout: the code under test may redirect or close fd 1
